@@ -279,7 +279,7 @@ type C08BCase struct {
 }
 
 func c08BGen(t *rapid.T) C08BCase {
-	return C08BCase{Conns: rapid.IntRange(4, 16).Draw(t, "conns"), Ops: rapid.IntRange(100, 600).Draw(t, "ops"), Kind: rapid.IntRange(0, 8).Draw(t, "kind"), Pad: pick(t, "pad", 0, 16, 1024)}
+	return C08BCase{Conns: rapid.IntRange(4, 16).Draw(t, "conns"), Ops: rapid.IntRange(100, 600).Draw(t, "ops"), Kind: pick(t, "kind", 0, 1, 2, 3, 4, 5, 6, 6, 6, 7, 8), Pad: pick(t, "pad", 0, 16, 1024)}
 }
 
 func c08BRun(c C08BCase, st *kit.Stats) error {
